@@ -1033,8 +1033,34 @@ impl std::fmt::Display for UserHeader {
             result.push_str(&format!("{{119:{validation_flag}}}"));
         }
 
+        if let Some(ref checkpoint) = self.balance_checkpoint {
+            let mut value = checkpoint.date.clone();
+            value.push_str(&checkpoint.time);
+            if let Some(ref hundredths) = checkpoint.hundredths_of_second {
+                value.push_str(hundredths);
+            }
+            result.push_str(&format!("{{423:{value}}}"));
+        }
+
+        if let Some(ref mir) = self.message_input_reference {
+            let mut value = mir.date.clone();
+            value.push_str(&mir.lt_identifier);
+            value.push_str(&mir.branch_code);
+            value.push_str(&mir.session_number);
+            value.push_str(&mir.sequence_number);
+            result.push_str(&format!("{{106:{value}}}"));
+        }
+
+        if let Some(ref related_reference) = self.related_reference {
+            result.push_str(&format!("{{424:{related_reference}}}"));
+        }
+
         if let Some(ref unique_end_to_end_ref) = self.unique_end_to_end_reference {
             result.push_str(&format!("{{121:{unique_end_to_end_ref}}}"));
+        }
+
+        if let Some(ref addressee_information) = self.addressee_information {
+            result.push_str(&format!("{{115:{addressee_information}}}"));
         }
 
         if let Some(ref service_type_identifier) = self.service_type_identifier {
